@@ -202,6 +202,16 @@ func (c *FnCtx) translateBlock(b *ssa.BasicBlock, entryItems []Item) {
 				c.assert(&ex.Items, "nilelem", "nilelem", "make([]"+tstr(fr.et)+", n) filled when leaving its scope", c.filledFormula(st, fr), nil, nil, true)
 			}
 		}
+		for _, pi := range c.pendingInv {
+			ab := pi.alloc.(*ssa.Alloc).Block()
+			if ab.Dominates(b) && !ab.Dominates(ex.Target) {
+				save, saveItems := c.cur, c.curItems
+				c.cur, c.curItems = st, &ex.Items
+				ob := c.assert(&ex.Items, "fieldinv", "fieldinv", pi.fi.Type+"."+pi.fi.Field+" (object constructed here, when leaving its scope)", c.pendingInvFormula(st, pi), nil, nil, true)
+				ob.Text = pi.fi.Text
+				c.cur, c.curItems = save, saveItems
+			}
+		}
 	}
 	// invariants on edges into loop headers
 	for i := range bv.Exits {
@@ -939,6 +949,28 @@ func (c *FnCtx) ret(x *ssa.Return) {
 			c.assert(c.curItems, "nilelem", "nilelem", "make([]"+tstr(fr.et)+", n) filled at return", c.filledFormula(c.cur, fr), x, nil, true)
 		}
 	}
+	for _, pi := range c.pendingInv {
+		returned := false
+		for _, r := range x.Results {
+			if r == pi.alloc {
+				returned = true
+			}
+			if phi, ok := r.(*ssa.Phi); ok {
+				for _, e := range phi.Edges {
+					if e == pi.alloc {
+						returned = true
+					}
+				}
+			}
+		}
+		if !returned {
+			continue // the object under construction is dropped on this path
+		}
+		if pi.alloc.(*ssa.Alloc).Block().Dominates(x.Block()) {
+			ob := c.assert(c.curItems, "fieldinv", "fieldinv", pi.fi.Type+"."+pi.fi.Field+" (object constructed here, at return)", c.pendingInvFormula(c.cur, pi), x, nil, true)
+			ob.Text = pi.fi.Text
+		}
+	}
 	if c.con != nil && !c.con.Trusted {
 		for _, cl := range c.con.Ensures {
 			if !clauseActive(cl, c.prop) {
@@ -953,7 +985,7 @@ func (c *FnCtx) ret(x *ssa.Return) {
 				if len(parts) > 1 {
 					stem = fmt.Sprintf("ensures#%d.%d", cl.Ord, pi+1)
 				}
-				ob := c.assert(c.curItems, "ensures", stem, "", f, x, cl.Tags, false)
+				ob := c.assert(c.curItems, "ensures", stem, "", f, x, cl.Tags, len(cl.Tags) == 0)
 				ob.Text = cl.Text
 				ob.Group = cl.Group
 			}
@@ -991,7 +1023,7 @@ func (c *FnCtx) ret(x *ssa.Return) {
 				if len(parts) > 1 {
 					stem = fmt.Sprintf("lensures#%d.%d", cl.Ord, pi+1)
 				}
-				ob := c.assert(c.curItems, "ensures", stem, "", f, x, cl.Tags, false)
+				ob := c.assert(c.curItems, "ensures", stem, "", f, x, cl.Tags, len(cl.Tags) == 0)
 				ob.Text = cl.Text
 			}
 		}
@@ -1024,7 +1056,7 @@ func (c *FnCtx) ret(x *ssa.Return) {
 			env.vars[qn] = Val{T: sx(tidf, k.T), S: SInt, GT: types.Typ[types.Int]}
 			f := env.trGoal(cl.E)
 			c.flushFacts(env)
-			ob := c.assert(c.curItems, "ensures", fmt.Sprintf("each#%d/established", cl.Ord), "", f, x, cl.Tags, false)
+			ob := c.assert(c.curItems, "ensures", fmt.Sprintf("each#%d/established", cl.Ord), "", f, x, cl.Tags, len(cl.Tags) == 0)
 			ob.Text = cl.Text
 			// stability: forall q :: old(P(q)) ==> P(q)
 			env2 := c.specEnvFor(c.cur, c.entry, nil)
@@ -1036,7 +1068,7 @@ func (c *FnCtx) ret(x *ssa.Return) {
 			envOld.bound[qn] = true
 			pre := envOld.trAssume(cl.E)
 			stab := fmt.Sprintf("(forall ((q_%s Int)) %s)", qn, sImp(pre, post))
-			ob2 := c.assert(c.curItems, "ensures", fmt.Sprintf("each#%d/stable", cl.Ord), "", stab, x, cl.Tags, false)
+			ob2 := c.assert(c.curItems, "ensures", fmt.Sprintf("each#%d/stable", cl.Ord), "", stab, x, cl.Tags, len(cl.Tags) == 0)
 			ob2.Text = cl.Text
 		}
 	}
